@@ -137,6 +137,17 @@ impl<T: fmt::Display> fmt::Display for Override<T> {
 /// Parses a `Meta`. A bare word will produce `Override::Inherit`, while
 /// any value will be forwarded to `T::from_meta`.
 impl<T: FromMeta> FromMeta for Override<T> {
+    fn from_meta(item: &syn::Meta) -> Result<Self> {
+        match item {
+            // The bare word means "inherit"; every other form is handed to `T` as a whole, so
+            // that `Override<T>` accepts exactly what `T` accepts - including expressions
+            // (`Override<syn::Path>`) and types that handle `from_meta` themselves
+            // (`Override<Option<T>>`, `Override<Box<T>>`).
+            syn::Meta::Path(_) => Self::from_word(),
+            _ => T::from_meta(item).map(Explicit),
+        }
+    }
+
     fn from_word() -> Result<Self> {
         Ok(Inherit)
     }
